@@ -37,8 +37,8 @@ func main() {
 	run.Set("server_deviation_bound", E)
 	run.Sample(map[string]any{"scenario": "S2-3callers-obj-bool-err", "choices": []int{0, 0, 0, 1, 0, 0, 2}, "meaning": "index of the chosen alternative at each scheduling point; 0 = default (keep running / lowest thread id / oldest queued answer as a plain message)"})
 	(&sess.XSpec{Run: run, Scenarios: scenarios(), Budget: budget,
-		Bounds: func(*sess.Scenario) sched.Bounds { return sched.Bounds{Preemptions: -1, Delays: D, EnvDev: E} },
-		Judge:  judge,
+		Bounds:     func(*sess.Scenario) sched.Bounds { return sched.Bounds{Preemptions: -1, Delays: D, EnvDev: E} },
+		Judge:      judge,
 		NonTrivial: sess.AnyReturned,
 	}).Main()
 }
